@@ -20,13 +20,18 @@ INPUTS = ["", "one\ntwo\nthree\n", "no newline at end", "\n\nblank lines\n\n", "
           "trailing  \n\ttabs\t\n   \nnbsp\u00a0\n  lead\n", " \u2003\u3000\n\x0b\x0c\n\r\r\n"]
 
 
+LONG_INPUTS = ["a" * 70000 + "\nsecond\nthird\n", "\u20ac" * 30000 + "\nsecond\nthird\n", "x" * 65535 + "\ny\n", "x" * 65536 + "\ny\n", "x" * 131073 + "\n\nz"]
+LONG_PROGRAM = "listen to Apex\nlisten to Second\nsay Second\nlisten to Third\nsay Third\nsay Apex is Second\n"
+
+
 def run(chk):
     proved = setup(chk, "C08")
     rng = rng_for(chk, 8)
     quick = chk.tier == "quick"
     gen = exec_cases(chk, 25 if quick else 250, focus={"say": 8, "listen": 6, "loop": 2, "if": 1}, salt=88)
     programs = PROGRAMS + [g["src"] for g in gen]
-    base = [{"src": p, "stdin": i} for p in programs for i in (INPUTS if p in PROGRAMS else [g["stdin"] for g in gen if g["src"] == p][:1] + INPUTS[1:3])]
+    long_cases = [{"src": LONG_PROGRAM, "stdin": i} for i in LONG_INPUTS]
+    base = long_cases + [{"src": p, "stdin": i} for p in programs for i in (INPUTS if p in PROGRAMS else [g["stdin"] for g in gen if g["src"] == p][:1] + INPUTS[1:3])]
     # fault-free runs first: output length and input length bound the fault positions
     free = execsuite.run(chk, base, "free", suite_name="IO-faultfree")
     cases = []
